@@ -60,7 +60,12 @@ struct Model {
     logs: Vec<Vec<String>>,
 }
 
-fn run_sequence(seq: &[Op], ctx: &WorkerCtx) -> ExecResult {
+fn run_sequence(seq: &[Op], ctx: &WorkerCtx) -> ExecResult { run_sequence_from(seq, None, ctx) }
+
+/// `primed`: None = from the initial state (names through the Node API). Some(flip) = from a state in which the names a -> p0
+/// and b -> p1 are registered and one message has been sent to each; name operations at positions of parity `flip` go
+/// through the registry the node hands out (`Node::registry()`), the others through the Node API.
+fn run_sequence_from(seq: &[Op], primed: Option<usize>, ctx: &WorkerCtx) -> ExecResult {
     run_rt(async move {
         let mut res = ExecResult::default();
         let lw = match local_world(ctx).await { Ok(x) => x, Err(e) => { res.violations.push(("node could not start against the fake EPMD".into(), json!({"error": e}))); return res; } };
@@ -76,7 +81,19 @@ fn run_sequence(seq: &[Op], ctx: &WorkerCtx) -> ExecResult {
         let mut n = 0i64;
         let name_a = Atom::new("a");
         let name_b = Atom::new("b");
-        for op in seq {
+        if primed.is_some() {
+            let _ = node.register(name_a.clone(), pids[0].clone()).await; m.names.insert("a", 0);
+            let _ = node.register(name_b.clone(), pids[1].clone()).await; m.names.insert("b", 1);
+            for (nm, p) in [(&name_a, 0usize), (&name_b, 1)] {
+                n += 1;
+                let msg = OwnedTerm::Tuple(vec![OwnedTerm::atom("m"), OwnedTerm::Integer(n)]);
+                let _ = node.send_to_name(nm, msg.clone()).await;
+                m.logs[p].push(format!("msg:{}", crate::denote::denote(&msg)));
+            }
+            settle_local(&lw.w, &probe).await;
+        }
+        for (pos, op) in seq.iter().enumerate() {
+            let via_registry = primed.map(|flip| (pos + flip) % 2 == 1).unwrap_or(false);
             n += 1;
             res.steps += 1;
             let msg = OwnedTerm::Tuple(vec![OwnedTerm::atom("m"), OwnedTerm::Integer(n)]);
@@ -89,14 +106,14 @@ fn run_sequence(seq: &[Op], ctx: &WorkerCtx) -> ExecResult {
                 Op::RegA(p) | Op::RegB(p) => {
                     let (nm, key) = if matches!(op, Op::RegA(_)) { (&name_a, "a") } else { (&name_b, "b") };
                     if p < pids.len() {
-                        let r = node.register(nm.clone(), pids[p].clone()).await;
+                        let r = if via_registry { node.registry().register(nm.clone(), pids[p].clone()).await } else { node.register(nm.clone(), pids[p].clone()).await };
                         let expect_ok = !m.names.contains_key(key);
                         if r.is_ok() != expect_ok { mismatch = Some(format!("register({}, p{}) returned {:?}, expected ok={}", key, p, r.as_ref().err().map(|e| e.to_string()), expect_ok)); }
                         if r.is_ok() { m.names.insert(key, p); }
                     }
                 }
                 Op::UnregA => {
-                    let r = node.unregister(&name_a).await;
+                    let r = if via_registry { node.registry().unregister(&name_a).await } else { node.unregister(&name_a).await };
                     let expect_ok = m.names.contains_key("a");
                     if r.is_ok() != expect_ok { mismatch = Some(format!("unregister(a) ok={} expected {}", r.is_ok(), expect_ok)); }
                     m.names.remove("a");
@@ -249,6 +266,39 @@ fn gen_server_caller_dies(first: &bool, ctx: &WorkerCtx) -> ExecResult {
         }
         res.steps = 5;
         res.outcome = format!("gs caller dies first={} got={}", first, got.len());
+        res
+    })
+}
+
+/// A call that reaches the server inside an envelope naming somebody else as the sender (a forwarded call, or a call that
+/// came over a connection): the answer goes to the caller named in the call, once, and the envelope's sender gets nothing.
+fn forwarded_call_exec(kind: &usize, ctx: &WorkerCtx) -> ExecResult {
+    let kind = *kind;
+    run_rt(async move {
+        let mut res = ExecResult::default();
+        let lw = match local_world(ctx).await { Ok(x) => x, Err(e) => { res.violations.push(("node could not start against the fake EPMD".into(), json!({"error": e}))); return res; } };
+        let log: Log = Arc::new(Mutex::new(vec![]));
+        let node = lw.node.clone();
+        lw.w.gates.set_active(&[]);
+        let caller = node.spawn(Rec { name: "caller".into(), log: log.clone() }).await.unwrap();
+        let forwarder = node.spawn(Rec { name: "forwarder".into(), log: log.clone() }).await.unwrap();
+        let gs = node.spawn(GenServerProcess::new(HoldEcho, node.registry())).await.unwrap();
+        let probe = { let l = log.clone(); move || l.lock().unwrap().len() as u64 };
+        let r = node.make_reference();
+        let call = OwnedTerm::Tuple(vec![OwnedTerm::atom("$gen_call"), OwnedTerm::Tuple(vec![OwnedTerm::Pid(caller.clone()), OwnedTerm::Reference(r.clone())]), OwnedTerm::atom("fw")]);
+        // envelope senders: another live local process, a process of another node, the server itself, the caller
+        let remote = ExternalPid::new(erltf::types::Atom::new("peer@127.0.0.1"), 9, 0, 5);
+        let env = [forwarder.clone(), remote, gs.clone(), caller.clone()][kind % 4].clone();
+        let Some(h) = node.registry().get(&gs).await else { res.violations.push(("spawned server does not resolve".into(), json!({}))); return res; };
+        let sent = h.send(edp_node::Message::Regular { from: Some(env.clone()), body: call }).await.is_ok();
+        settle_local(&lw.w, &probe).await;
+        let all: Vec<(String, String)> = log.lock().unwrap().clone();
+        let want = format!("msg:{}", RefVal::Tuple(vec![den_ref(&r), RefVal::Tuple(vec![RefVal::atom("echo"), RefVal::atom("fw")])]));
+        let ok = sent && all == vec![("caller".to_string(), want.clone())];
+        let env_name = ["another local process", "a process of another node", "the server itself", "the caller"][kind % 4];
+        if !ok { res.violations.push(("a call delivered in an envelope with another sender is not answered once to the caller named in the call".into(), json!({"envelope_sender": env_name, "received": all, "expected": [["caller", want]]}))); }
+        res.steps = 1;
+        res.outcome = format!("forwarded call {}", kind);
         res
     })
 }
@@ -597,6 +647,15 @@ pub fn run(rep: &Report) -> Value {
         }
     }
     let seq_stats: Stats = for_all(rep, "sequential histories", &cases, |c, ctx| run_sequence(c, ctx));
+    // from a state with both names taken and used: all sequences of name operations, sends and failures, the name
+    // operations alternating between the Node API and the registry handle (both alternations)
+    let mut primed_cases: Vec<(Vec<Op>, usize)> = vec![];
+    {
+        let al = [Op::RegA(0), Op::RegA(1), Op::RegB(1), Op::RegB(0), Op::UnregA, Op::SendNameA, Op::SendNameB, Op::Fail(0), Op::Fail(1)];
+        let mut fr: Vec<Vec<Op>> = vec![vec![]];
+        for _ in 0..depth { let mut next = vec![]; for s in &fr { for o in &al { let mut x = s.clone(); x.push(*o); next.push(x); } } for x in &next { primed_cases.push((x.clone(), 0)); primed_cases.push((x.clone(), 1)); } fr = next; }
+    }
+    let primed_stats: Stats = for_all(rep, "sequential histories from a state with both names in use", &primed_cases, |c, ctx| run_sequence_from(&c.0, Some(c.1), ctx));
     let qb = [1usize, 2, 3, 4, 7, 33, 40];
     let qb_stats: Stats = for_all(rep, "messages queued behind a busy process", &qb, |c, ctx| queued_burst_exec(c, ctx));
     let aw = [0usize, 1, 2];
@@ -605,6 +664,8 @@ pub fn run(rep: &Report) -> Value {
     let ge_stats: Stats = for_all(rep, "gen_event calls to installed, missing and failing handlers", &ge, |c, ctx| gen_event_calls(c, ctx));
     let gsd = [false, true];
     let gs_stats: Stats = for_all(rep, "gen_server caller terminates while its call is being handled", &gsd, |c, ctx| gen_server_caller_dies(c, ctx));
+    let fwk = [0usize, 1, 2, 3];
+    let fw_stats: Stats = for_all(rep, "gen_server call inside an envelope with another sender", &fwk, |c, ctx| forwarded_call_exec(c, ctx));
     let mut conc: Vec<(String, Stats)> = vec![];
     let names = ["fail(p1) || register(x,p2) where x names p1", "fail(p1) || send(p0) x2, p0 linked, p2 monitoring", "link(p0,p1) || fail(p1)", "send_to_name(x) || unregister(x)", "two senders x2 to one process", "two gen_server callers", "register(x,p0) || register(x,p1)"];
     let bound = if thorough { 4 } else { 3 };
@@ -612,7 +673,7 @@ pub fn run(rep: &Report) -> Value {
         let st = explore(rep, n, bound, std::time::Duration::from_secs(if thorough { 300 } else { 20 }), |ch, ctx| concurrent(ch, ctx, i));
         conc.push((n.to_string(), st));
     }
-    let states = seq_stats.executions + gs_stats.executions + ge_stats.executions + qb_stats.executions + aw_stats.executions + conc.iter().map(|c| c.1.executions).sum::<u64>();
+    let states = seq_stats.executions + primed_stats.executions + gs_stats.executions + fw_stats.executions + ge_stats.executions + qb_stats.executions + aw_stats.executions + conc.iter().map(|c| c.1.executions).sum::<u64>();
     let transitions = seq_stats.transitions + conc.iter().map(|c| c.1.transitions).sum::<u64>();
     let mut samples = vec![json!({"sequential_history": format!("{:?}", cases[cases.len() / 3])}), json!({"sequential_history": format!("{:?}", cases[cases.len() - 11])})];
     for c in &conc { samples.extend(c.1.samples.iter().take(1).cloned()); }
